@@ -122,7 +122,9 @@ func TestVerifCodecObfuscators(t *testing.T) {
 						bad("obf:"+c.Kind+":roundtrip", fmt.Sprintf("TryReveal(Obfuscate(tag)) != tag for a %d-byte tag, key pair #%d, encoding %d (err %v)", c.N, keyNo, i+1, err), c, nil)
 					}
 				}
-				if c.Randomised && bytes.Equal(c1, c2) {
+				// (the XOR pad is as long as the tag: two encodings of a tag shorter than 8 bytes coincide by chance
+				//  with probability >= 2^-56, so freshness is judged only where a collision is not a coin toss)
+				if c.Randomised && bytes.Equal(c1, c2) && (c.Kind != "xor" || c.N >= 8) {
 					bad("obf:"+c.Kind+":not-fresh", fmt.Sprintf("two encodings of one %d-byte tag under key pair #%d are identical", c.N, keyNo), c, nil)
 				}
 				if !c.Randomised && !bytes.Equal(c1, c2) {
@@ -146,6 +148,29 @@ func TestVerifCodecObfuscators(t *testing.T) {
 			}()
 		}
 	})
+	// decoders on arbitrary bytes: a value or an error, never a panic
+	narb := 0
+	for i := 0; i < vEnvInt("VERIF_ARB", 20000)/10; i++ {
+		b := make([]byte, rng.Intn(120))
+		rng.Read(b)
+		priv, _ := vKeyPair(i%50 + 1)
+		for kind, ob := range obfs {
+			func() {
+				defer func() {
+					if x := recover(); x != nil {
+						bad("obf:"+kind+":TryReveal:panic", fmt.Sprintf("TryReveal panics on %d arbitrary bytes: %v", len(b), x), nil, nil)
+					}
+				}()
+				_, err := ob.TryReveal(append([]byte(nil), b...), priv)
+				classes["obf:"+kind+":arb:"+fmt.Sprint(err == nil)] = true
+				if kind == "gcm" && err == nil {
+					bad("obf:gcm:forgery", "authenticated obfuscator accepts arbitrary bytes", nil, nil)
+				}
+				narb++
+			}()
+		}
+	}
+
 	// observation only (not judged, see checks/C15.py): the zero-length tag
 	empty := map[string]string{}
 	for kind, ob := range obfs {
@@ -233,5 +258,5 @@ func TestVerifCodecObfuscators(t *testing.T) {
 	for k := range classes {
 		cl = append(cl, k)
 	}
-	o.Emit(map[string]any{"kind": "summary", "driver": "transports", "evaluations": n, "key_pairs": len(pairs), "classes": cl})
+	o.Emit(map[string]any{"kind": "summary", "driver": "transports", "evaluations": n, "key_pairs": len(pairs), "arbitrary": narb, "classes": cl})
 }
